@@ -1,13 +1,21 @@
 import UralModel.Model.UrlParts
 import UralModel.Model.Quote
+import UralModel.Py.UrlAccessors
 import UralModel.Gen.QuoteTables
 /-!
 # Model of `ural/canonicalize_url.py`
 
 `cleanUrl` is the part before parsing (control-character strip, whitespace strip,
 `upper_quoted`, `ensure_protocol`); the harness parses its result with the real `urlsplit`
-and hands the components to `canonParts`, which models everything between parsing and
-`urlunsplit`; `canonicalizeUrl` finishes with the model of `urlunsplit`.
+and hands the components to `canonSplit`, which models everything between parsing and
+`urlunsplit` (`none` = the `ValueError` raised for brackets in the userinfo, else
+`canonParts`); `printSplit` is the serialisation (`urlunsplit`, then the `//` of an empty
+authority is put back).
+
+Code modelled: `ural/canonicalize_url.py` with the four fixes FX-C01-ca9f3e6 (brackets
+in the userinfo are rejected), FX-C01-feb1ed1 (a bracketed host keeps its brackets),
+FX-C02-f918741 (`scheme://` is kept for an empty authority), FX-C02-16f182c (a host
+ending with white space keeps the slash after it).
 -/
 namespace Ural.Canonicalize
 open Ural.Py Ural.UrlParts Ural.Quote
@@ -57,8 +65,52 @@ structure Comps where
   fragment : Option Str
   deriving DecidableEq, Repr
 
-/-- the host rule (lines 46–48) -/
+/-- the host rule (`decode_punycode_hostname`, `lower`) -/
 def canonHost (puny : Str → Str) (h : Str) : Str := lower (decodePunycodeHostname puny h)
+
+/-- `userinfo, _, hostinfo = netloc.rpartition("@")`, then
+`"[" in userinfo or "]" in userinfo`: such an authority is rejected (`ValueError`) -/
+def userinfoBrackets (netloc : Str) : Bool :=
+  ((splitLast netloc '@').1.getD []).contains '[' || ((splitLast netloc '@').1.getD []).contains ']'
+
+/-- `"[" in hostinfo`: the host is an ip literal (`_hostinfo` reads the text between the
+first `[` of `hostinfo` and the next `]`) -/
+def bracketedHost (netloc : Str) : Bool := (hostinfoStr netloc).contains '['
+
+/-- the `if hostname:` block as a whole, on the optional host component: decoded and
+lower-cased when truthy -/
+def hostRule (puny : Str → Str) (o : Option Str) : Option Str :=
+  match o with
+  | some h => if h.isEmpty then some h else some (canonHost puny h)
+  | none => none
+
+/-- the end of the `if hostname:` block: an ip literal keeps its brackets -/
+def bracketHost (netloc : Str) (host : Option Str) : Option Str :=
+  if truthy host ∧ bracketedHost netloc = true then some ('[' :: host.getD [] ++ [']']) else host
+
+/-- "dropping the scheme's default port" -/
+def portRule (scheme : Str) (o : Option Nat) : Option Nat :=
+  match o with
+  | some n => if defaultPort scheme = some n then none else some n
+  | none => none
+
+/-- `s[-1].isspace()` (false on the empty string, as `hostname and …` makes it) -/
+def endsWithSpace (s : Str) : Bool :=
+  match s.getLast? with
+  | some c => isSpace c
+  | none => false
+
+/-- `ends_with_space = port is None and hostname and hostname[-1].isspace()`, on the
+host as printed (brackets included) and the port left after the default-port rule -/
+def hostEndsUrl (puny : Str → Str) (p : Parsed) : Bool :=
+  (portRule p.scheme p.port).isNone &&
+    endsWithSpace ((bracketHost p.netloc (hostRule puny p.hostname)).getD [])
+
+/-- the `else` side of the empty-path rule: a query, a fragment, or a host that would end
+the URL with a white-space character -/
+def hasMore (puny : Str → Str) (stripFragment : Bool) (p : Parsed) : Bool :=
+  !p.query.isEmpty || truthy (if stripFragment then none else some p.fragment) ||
+    hostEndsUrl puny p
 
 /-- the query rule: split, unescape each key and value, quote them again in quoted mode,
 serialize -/
@@ -72,10 +124,11 @@ def canonOpt (quoted : Bool) (unq : Str → Str) (o : Option Str) : Option Str :
   | some u => if u.isEmpty then some u else some (requote quoted unq u)
   | none => none
 
-/-- everything between parsing and the re-assembly of the authority -/
+/-- everything between parsing and the re-assembly of the authority (the host without the
+brackets `bracketHost` puts around it in `canonParts`) -/
 def canonComps (puny : Str → Str) (quoted stripFragment : Bool) (p : Parsed) : Comps :=
   let fragment : Option Str := if stripFragment then none else some p.fragment
-  let path := canonPath p.path (!p.query.isEmpty || truthy fragment)
+  let path := canonPath p.path (hasMore puny stripFragment p)
   { scheme := p.scheme
     user := canonOpt quoted unquoteAuthItem p.username
     pass := canonOpt quoted unquoteAuthItem p.password
@@ -89,10 +142,23 @@ def canonComps (puny : Str → Str) (quoted stripFragment : Bool) (p : Parsed) :
     query := canonQuery quoted p.query
     fragment := canonOpt quoted unquoteFragment fragment }
 
-/-- everything between parsing and `urlunsplit` -/
+/-- everything between parsing and `urlunsplit`, once the userinfo is accepted -/
 def canonParts (puny : Str → Str) (quoted stripFragment : Bool) (p : Parsed) : Split :=
   let c := canonComps puny quoted stripFragment p
-  { scheme := c.scheme, netloc := unsplitNetloc c.user c.pass c.host c.port,
+  { scheme := c.scheme, netloc := unsplitNetloc c.user c.pass (bracketHost p.netloc c.host) c.port,
     path := c.path, query := c.query, fragment := c.fragment }
+
+/-- everything between parsing and `urlunsplit`; `none` = `ValueError("Invalid URL
+(brackets in userinfo)")` -/
+def canonSplit (puny : Str → Str) (quoted stripFragment : Bool) (p : Parsed) : Option Split :=
+  if userinfoBrackets p.netloc then none else some (canonParts puny quoted stripFragment p)
+
+/-- the serialisation: `urlunsplit(result)`, then `scheme://` is restored when `urlunsplit`
+dropped the `//` of an empty authority (a scheme outside `uses_netloc`) -/
+def printSplit (s : Split) : Str :=
+  let r := urlunsplit s
+  if ¬ s.scheme.isEmpty ∧ s.netloc.isEmpty ∧ ¬ startsWith r (s.scheme ++ [':', '/', '/']) then
+    s.scheme ++ [':', '/', '/'] ++ r.drop (s.scheme.length + 1)
+  else r
 
 end Ural.Canonicalize
